@@ -30,7 +30,7 @@ REQUIRED = {"like:sums": 200, "like:arrangements": 2000, "alike:pairs": 3000, "a
             "like:answer:True": 50, "like:answer:False": 50, "alike:answer:True": 100}
 
 COEFS = ["", "2", "3", "12", "0.5", "2.5", "-1", "-3", "0", "1", "-0.25", "7", "100"]
-EXPS = ["", "^2", "^3", "^0", "^-2", "^0.5", "^1", "^2.5", "^-1"]
+EXPS = ["", "^2", "^3", "^0", "^-2", "^0.5", "^1", "^2.5", "^-1", "^99999", "^100000", "^199999", "^200001", "^2.00001", "^2.00002", "^1000000", "^1000001"]
 VARS = "xyzab"
 NAMES = ["has_like_terms", "terms_are_like", "get_term", "get_terms", "get_term_ex", "get_sub_terms", "is_simple_term", "is_preferred_term_form", "make_term", "factor"]
 
@@ -415,6 +415,21 @@ def run(rec, cfg):
             if S.kind(root) != "Equal":
                 drive_predicates(rec, rng, root)
                 rec.arm("like:long-expression")
+    # the relation on a grid of exponent pairs (equal, adjacent, and close relative to their size)
+    grid_e = ["2", "3", "0", "1", "-1", "-2", "0.5", "2.5", "99999", "100000", "100001", "199999", "200001", "2.00001", "2.00002", "1000000", "1000001", "0.1", "0.10000001"]
+    k = 0
+    for e1 in grid_e:
+        for e2 in grid_e:
+            k += 1
+            if not cfg.mine(k):
+                continue
+            try:
+                root = D.parse(f"2x^{e1} + 3x^{e2} + y^{e1}")
+            except Exception:
+                continue
+            check_alike(rec, rng, root)
+            check_alike_results(rec, rng, root)
+            rec.arm("alike:exponent-grid")
     n = cfg.scale(500, 20000)
     corp = WT.corpus()
     for i in range(n):
